@@ -12,12 +12,15 @@ ALL_OPS = ["index", "sliced", "strided", "dropped", "taked", "rotated", "unrotat
 LAYOUT_CHANGING = set(ALL_OPS) - {"broadcast", "addr"}
 
 
+RECV_SUFFIX = {"lv": "", "const": "@c", "rv": "@r"}   # receiver value category of an operation, carried in the operation's name
+
+
 def program_line(pid, rec):
     r = rec["root"]
     parts = ["P", str(pid), str(len(r["shape"]))] + [str(x) for x in r["shape"]] + [str(x) for x in r["first"]]
     parts.append(str(len(rec["path"])))
     for o in rec["path"]:
-        parts += [o["op"], str(len(o["args"]))] + [str(a) for a in o["args"]]
+        parts += [o["op"] + RECV_SUFFIX.get(o.get("recv", "lv"), ""), str(len(o["args"]))] + [str(a) for a in o["args"]]
     return " ".join(parts) + "\n"
 
 
@@ -105,6 +108,72 @@ def build_replayer(wd, flags=(), name="replay_views"):
     return (exe if ok else None), text
 
 
+# ---------------------------------------------------------------------------------------------------------------------
+# Compile probe.  The view programs call every operation of ViewAlgebra.tla through every receiver value category, so a
+# library in which one of these overloads stops compiling breaks the replayer's build.  Rather than reporting "broken",
+# the probe compiles one translation unit per (operation, receiver category, dimensionality, array/view) and names the
+# combinations that do not compile: the specification's domain (ApplyPre) says which must exist.
+PROBE_EXPR = {
+    "index": "X[0]", "sliced": "X.sliced(0, 1)", "strided": "X.strided(2)", "dropped": "X.dropped(1)", "taked": "X.taked(1)",
+    "rotated": "X.rotated()", "unrotated": "X.unrotated()", "transposed": "X.transposed()", "reversed": "X.reversed()",
+    "diagonal": "X.diagonal()", "partitioned": "X.partitioned(1)", "chunked": "X.chunked(1)", "flatted": "X.flatted()",
+    "broadcast": "X.broadcasted()", "paren": "X({0, 1})", "halved": "X.halved()", "sliced3": "X.sliced(0, 2, 2)", "tilde": "~X",
+    "range": "X.range({0, 1})", "front": "X.front()", "back": "X.back()", "addr": "&X",
+    "reindexed": "X.reindexed(1)", "blocked": "X.blocked(0, 1)", "stenciled": "X.stenciled({0, 1})", "stenciled2": "X.stenciled({0, 1}, {0, 1})",
+    "elements": "X.elements()", "home": "X.home()", "begin": "X.begin()",
+}
+PROBE_NEEDS_D2 = {"transposed", "diagonal", "flatted", "tilde", "stenciled2"}
+PROBE_RECV = {"lv": "a", "const": "std::as_const(a)", "rv": "std::move(a)"}
+PROBE_KIND = {"array": "multi::array<int, D>", "view": "multi::subarray<int, D>"}
+
+
+def compile_probe(wd):
+    """returns the list of (op, recv, D, kind, first error line) that do not compile although the operation is in the
+    specification's domain for that dimensionality"""
+    import subprocess
+    from concurrent.futures import ThreadPoolExecutor
+    pdir = os.path.join(wd, "probe")
+    os.makedirs(pdir, exist_ok=True)
+    jobs = []
+    for D in (1, 2, 3):
+        for kn, kt in PROBE_KIND.items():
+            for rn, rx in PROBE_RECV.items():
+                for on, ox in PROBE_EXPR.items():
+                    if D == 1 and on in PROBE_NEEDS_D2:
+                        continue
+                    if on == "addr" and kn == "array" and rn == "rv":
+                        continue   # the address of a temporary owning array is deleted on purpose
+                    src = ("#include <boost/multi/array.hpp>\n#include <utility>\nnamespace multi = boost::multi;\nconstexpr int D = %d; using A = %s;\n"
+                           "void f(A& a) { auto&& r = %s; (void)r; }\n" % (D, kt, ox.replace("X", "(" + rx + ")")))
+                    jobs.append((on, rn, D, kn, src))
+
+    def one(j):
+        on, rn, D, kn, src = j
+        f = os.path.join(pdir, "p_%s_%s_%d_%s.cpp" % (on, rn, D, kn))
+        with open(f, "w") as fh:
+            fh.write(src)
+        p = subprocess.run(["g++", "-std=c++17", "-w", "-fsyntax-only", "-I" + os.path.join(vlib.REPO, "include"), f],
+                           stdout=subprocess.PIPE, stderr=subprocess.STDOUT, text=True)
+        os.remove(f)
+        if p.returncode == 0:
+            return None
+        errs = [ln for ln in p.stdout.splitlines() if "error" in ln]
+        return (on, rn, D, kn, (errs[0] if errs else p.stdout[-200:])[:300])
+    with ThreadPoolExecutor(max_workers=vlib.NPROC) as ex:
+        return [r for r in ex.map(one, jobs) if r is not None], len(jobs)
+
+
+def report_build_failure(rep, wd, text, what):
+    """the replayer does not build: name the operations that stopped compiling (VIOLATION), or give up (BROKEN)"""
+    fails, n = compile_probe(wd)
+    if not fails:
+        raise vlib.Broken("%s does not compile against %s (and the per-operation probe of %d units finds nothing):\n%s" % (what, vlib.REPO, n, text[-3000:]))
+    for on, rn, D, kn, err in fails:
+        rep.violation({"kind": "does_not_compile", "op": on, "recv": rn, "D": D, "on": kn}, {"error": err, "probe_units": n})
+    rep.cov["evaluations"] += n
+    rep.cov["samples"].append({"probe": "one translation unit per (operation, receiver category, D, array/view)", "failed": [list(f[:4]) for f in fails[:5]]})
+
+
 def replay_and_compare(report, prop, res, exe, wd, check_first, max_programs=None, label="", sig_extra=None,
                        crash_is_violation=True):
     """replays every emitted record; fills report; returns (n_programs, n_ok, obs_by_id, exps)"""
@@ -130,6 +199,9 @@ def replay_and_compare(report, prop, res, exe, wd, check_first, max_programs=Non
         path = exp["path"]
         lastop = path[-1]["op"] if path else "root"
         per_op[lastop] = per_op.get(lastop, 0) + 1
+        if path and path[-1].get("recv", "lv") != "lv":
+            per_recv = report.cov.setdefault("per_receiver_category", {})
+            per_recv[path[-1]["recv"]] = per_recv.get(path[-1]["recv"], 0) + 1
         key = json.dumps([exp["root"], path], sort_keys=True)
         if pid in crashed:
             c = crashed[pid]
@@ -148,6 +220,8 @@ def replay_and_compare(report, prop, res, exe, wd, check_first, max_programs=Non
         if bad:
             sig = {"kind": "mismatch", "op": lastop, "field": bad[0][0], "D": len(exp["root"]["shape"]),
                    "rebased": any(f != 0 for f in exp["root"]["first"])}
+            if path and path[-1].get("recv", "lv") != "lv":
+                sig["recv"] = path[-1]["recv"]
             if sig_extra:
                 sig.update(sig_extra)
             report.violation(sig, {"program": exp, "observed": o, "mismatches": bad[:4], "mode": label})
